@@ -38,4 +38,39 @@ theorem forced_value_separates (os : List Obs) (h : badObs os = []) (o : Obs) (h
 
 example : badObs [⟨[.auto, .avoid, .right], 0, 2, true, true⟩, ⟨[.page], 1, 1, false, true⟩] = [1] := by decide
 
+private theorem filter_map_nil {α : Type} (ok : α → Bool) (os : List α)
+    (h : ((os.zipIdx.filter (fun (o, _) => !ok o)).map Prod.snd) = []) : ∀ o ∈ os, ok o = true := by
+  intro o ho
+  simp only [List.map_eq_nil_iff, List.filter_eq_nil_iff] at h
+  obtain ⟨i, hlt, hget⟩ := List.mem_iff_getElem.mp ho
+  have hm : (o, i) ∈ os.zipIdx := by
+    rw [List.mem_zipIdx_iff_getElem?]
+    simp [hget, hlt]
+  simpa using h (o, i) hm
+
+/-- Accepted observations honour `break-before/after: avoid`: two siblings meeting at an avoiding value are on the
+same page unless the first one was the first content of its page (no other legal break point before it). -/
+theorem avoid_obs_sound (os : List AvoidObs) (h : badAvoid os = []) :
+    ∀ o ∈ os, avoids false (resolve o.values) = true → o.pageA = o.pageB ∨ o.aFirst = true := by
+  intro o ho ha
+  have hok := filter_map_nil avoidOk os h o ho
+  unfold avoidOk at hok
+  simp only [ha, ↓reduceIte, Bool.or_eq_true, beq_iff_eq] at hok
+  exact hok
+
+/-- Accepted observations honour `break-inside: avoid`: the unit is on one page unless it was the first content
+of its page. -/
+theorem inside_obs_sound (os : List InsideObs) (h : badInside os = []) :
+    ∀ o ∈ os, avoids false o.value = true → o.pages ≤ 1 ∨ o.first = true := by
+  intro o ho ha
+  have hok := filter_map_nil insideOk os h o ho
+  unfold insideOk at hok
+  simp only [ha, ↓reduceIte, Bool.or_eq_true, decide_eq_true_eq] at hok
+  exact hok
+
+example : badAvoid [⟨[.auto, .avoid], 0, 1, false⟩, ⟨[.avoid, .auto], 1, 2, true⟩, ⟨[.auto], 0, 1, false⟩] = [0] := by
+  decide
+example : badInside [⟨.avoid, 2, false⟩, ⟨.avoid, 2, true⟩, ⟨.auto, 3, false⟩, ⟨.avoidPage, 1, false⟩] = [0] := by
+  decide
+
 end Wp.C04Trace
